@@ -374,7 +374,7 @@ impl<'a, 'tcx> BodyCx<'a, 'tcx> {
     fn lit(&mut self, l: &hir::Lit, neg: bool) -> J {
         let (kind, v) = match l.node {
             LitKind::Str(s, _) => ("str", s.to_string()),
-            LitKind::ByteStr(..) => ("bytestr", String::new()),
+            LitKind::ByteStr(ref b, _) => ("bytestr", String::from_utf8_lossy(b.as_byte_str()).to_string()),
             LitKind::CStr(..) => ("cstr", String::new()),
             LitKind::Byte(b) => ("int", format!("{}", b)),
             LitKind::Char(c) => ("char", c.to_string()),
